@@ -197,7 +197,10 @@ structure Outcome (K : Type) where
   unit : Option (UnitV K)
   /-- factor the (second, or for trigonometric functions the only) operand was multiplied by -/
   factor : Option K := none
-  /-- itemsize of the float dtype the factor and the second operand were cast to -/
+  /-- factor the *first* operand was multiplied by (temperature difference + temperature point:
+      the difference is re-expressed in the point's degrees, array.py:1997-2006) -/
+  factorFirst : Option K := none
+  /-- itemsize of the float (complex for a complex operand) dtype the factor and the second operand were cast to -/
   factorItemsize : Option Nat := none
   /-- multiplier applied to the result afterwards (`mul`, and the dimensionless-ratio rescale) -/
   mul : K
@@ -427,10 +430,9 @@ def powerMapUnit (T : Tables) (f : String) (u : UnitV K) (n : Nat) : Except Err 
 /-- array.py:2014-2029: the result is wrapped in `ret_class`; when neither input is a
     `unyt_array` (`_get_binary_op_return_class` then answers `list`, `float`, `ndarray`, …) that
     constructor call fails — after the kernel has run -/
-def wrapClassFails (T : Tables) (c : Call K) (retPlain : Bool) (unit : Option (UnitV K)) : Bool :=
-  retPlain && unit.isSome &&
-    (c.ufunc == T.modfName || c.ufunc == T.divmodName
-      || (c.kernelShape != [] && c.kernelShape.foldl (· * ·) 1 != 1))
+def wrapClassFails (_T : Tables) (c : Call K) (retPlain : Bool) (unit : Option (UnitV K)) : Bool :=
+  -- `_wrap_ufunc_output`: 0-d and size-1 results never reach `ret_class(...)`, also for modf/divmod
+  retPlain && unit.isSome && (c.kernelShape != [] && c.kernelShape.foldl (· * ·) 1 != 1)
 
 /-- wrap-up shared by all paths: wrap the result, label the outputs, return -/
 def wrapUp (T : Tables) (eff : List (Effect K)) (c : Call K) (retPlain : Bool) (mul : K)
@@ -477,14 +479,26 @@ def unaryPath (C : Ctx K) (c : Call K) (inp : Operand K) (eff0 : List (Effect K)
         | .error e => ⟨eff1, .error e⟩
         | .ok (mul, unit) => wrapUp C.T eff1 c false mul unit factor none
 
-/-- array.py:1955-1968: rescaling of the second operand -/
-def convertSecond (C : Ctx K) (u0 u1 : UnitR K) (d1 : Data) : Except Err (K × Nat) :=
+/-- which operand the `u0 != u1` branch rescales -/
+inductive Rescale (K : Type)
+  /-- `inp1 = np.asarray(inp1, dtype=<f|c><itemsize>) * conv` -/
+  | second (factor : K) (itemsize : Nat)
+  /-- `inp0 = np.asarray(inp0) * (u0.base_value / u1.base_value)` -/
+  | first (factor : K)
+
+/-- array.py:1983-2008: rescaling of the second operand (or, for a temperature difference plus a
+    temperature point under `_preserve_units`, of the first) -/
+def convertSecond (C : Ctx K) (rule : Rule) (u0 u1 : UnitR K) (d1 : Data) : Except Err (Rescale K) :=
   match getConversionFactor C.pre C.lut u1.v u0.v with
   | .error e => .error e
   | .ok fo =>
-    if !([2, 4, 8, 16].contains d1.itemsize) then .error .TypeError   -- np.dtype("f1")
+    -- np.dtype("f1") / np.dtype("c4") do not exist
+    let sizes : List Nat := if d1.kind == .c then [8, 16, 32] else [2, 4, 8, 16]
+    if !(sizes.contains d1.itemsize) then .error .TypeError
     else if fo.2.isSome && u1.v.offset != 0 && !(startsDelta u0.repr) then .error .InvalidUnitOperation
-    else .ok (fo.1, d1.itemsize)
+    else if rule == .preserve && isTemperature u0.v && u0.v.offset == 0 && u1.v.offset != 0 then
+      .ok (.first (u0.v.scale / u1.v.scale))
+    else .ok (.second fo.1 d1.itemsize)
 
 /-- array.py:1975-1992: after the kernel of a multiply/divide rule -/
 def mulDivPost (rule : Rule) (u0 u1 : UnitR K) (mul : K) (unit : Option (UnitV K)) :
@@ -528,8 +542,8 @@ def stdBinary (C : Ctx K) (c : Call K) (rule : Rule) (i0 i1 : Operand K)
         else ⟨eff0 ++ eff, .ok { unit := none, mul := 1, early := some b }⟩
       | .none => ⟨eff0, .ok { unit := none, mul := 1, early := some b }⟩
     | .pass u0 u1 conv =>
-      let cv : Except Err (Option (K × Nat)) :=
-        if conv then (convertSecond C u0 u1 i1.data).map some else .ok none
+      let cv : Except Err (Option (Rescale K)) :=
+        if conv then (convertSecond C rule u0 u1 i1.data).map some else .ok none
       match cv with
       | .error e => ⟨eff0, .error e⟩
       | .ok cvo =>
@@ -543,7 +557,11 @@ def stdBinary (C : Ctx K) (c : Call K) (rule : Rule) (i0 i1 : Operand K)
             match mulDivPost rule u0 u1 mul unit with
             | .error e => ⟨eff1, .error e⟩
             | .ok (mul, unit) =>
-              wrapUp C.T eff1 c (!(i0.isUnyt) && !(i1.isUnyt)) mul unit (cvo.map (·.1)) (cvo.map (·.2))
+              let f2 : Option K := match cvo with | some (.second f _) => some f | _ => none
+              let fz : Option Nat := match cvo with | some (.second _ z) => some z | _ => none
+              let f1 : Option K := match cvo with | some (.first f) => some f | _ => none
+              let r := wrapUp C.T eff1 c (!(i0.isUnyt) && !(i1.isUnyt)) mul unit f2 fz
+              ⟨r.effects, r.result.map fun o => { o with factorFirst := f1 }⟩
 
 /-- array.py:1863-1890: `power` reads its exponent from the second operand -/
 def powerPath (C : Ctx K) (c : Call K) (i0 i1 : Operand K) (u0r c1 : Option (UnitR K))
